@@ -107,3 +107,37 @@ pub fn send_body_flow_extra_head_writes(buf: usize) -> Flow<(), SendBody> {
         _ => panic!("harness: expected SendBody"),
     }
 }
+
+/// A flow obtained by following a 302 of a POST that declared Content-Length 3; on the new (GET) flow the
+/// caller asks to send a body despite the method and declares its own Content-Length n.
+pub fn send_body_flow_redirected_len(n: u64) -> Flow<(), SendBody> {
+    use crate::chain::{follow, Followed, Loc};
+    let orig = ReqCfg::new("POST", "1.1", "http://a.test/p").orig("content-length", "3").orig("x-keep", "1");
+    let pf = orig.build_prepare().expect("prepare");
+    let mut nf = match follow(&pf, b"abc", 302, &Loc::one("/next"), false).expect("follow") {
+        Followed::New(f) => f,
+        _ => panic!("harness: redirect not followed"),
+    };
+    nf.send_body_despite_method();
+    nf.header("content-length", n.to_string().as_str()).expect("header");
+    let mut sr = nf.proceed();
+    crate::driver::write_whole_head(&mut sr).expect("head");
+    match AnyFlow::SendRequest(sr).proceed() {
+        Ok(Some(AnyFlow::SendBody(f))) => f,
+        _ => panic!("harness: expected SendBody"),
+    }
+}
+
+/// POST with Expect: 100-continue (default chunked framing) whose caller gave up waiting for the 100.
+pub fn send_body_flow_expect_gaveup() -> Flow<(), SendBody> {
+    let cfg = ReqCfg::new("POST", "1.1", "http://a.test/p").orig("expect", "100-continue");
+    let mut sr = cfg.build_prepare().expect("prepare").proceed();
+    crate::driver::write_whole_head(&mut sr).expect("head");
+    match AnyFlow::SendRequest(sr).proceed() {
+        Ok(Some(AnyFlow::Await100(a))) => match AnyFlow::Await100(a).proceed() {
+            Ok(Some(AnyFlow::SendBody(b))) => b,
+            _ => panic!("harness: expected SendBody after giving up"),
+        },
+        _ => panic!("harness: expected Await100"),
+    }
+}
